@@ -12,6 +12,7 @@ import itertools
 import sys
 
 from rv import core, sched
+from rv.locks import wrap_all_locks
 from rv.vclock import VClock, patched
 
 PID = "C08"
@@ -53,8 +54,8 @@ def plan(tier):
     depth = 4 if tier == "quick" else 5
     per_cfg = sweep_size(depth)
     # quick: each config gets a deterministic 1/6 slice of its depth-4 sweep per run (rotated by seed) + samples
-    nsweep = len(CONFIGS) * per_cfg // (6 if tier == "quick" else 1)
-    extra = 15000 if tier == "quick" else 300000
+    nsweep = len(CONFIGS) * per_cfg // (10 if tier == "quick" else 1)
+    extra = 8000 if tier == "quick" else 300000
     return {"cases": nsweep + extra, "shards": 8 if tier == "quick" else 14, "min_nontrivial": 200,
             "timeout": 600 if tier == "quick" else 2400,
             "require": {"steps": 50000, "open_refusals_checked": 3000, "probes_admitted": 1000, "probe_success_closed": 200,
@@ -120,7 +121,7 @@ class Model:
 def run_case(ctx, n):
     depth = 4 if ctx.tier == "quick" else 5
     per_cfg = sweep_size(depth)
-    div = 6 if ctx.tier == "quick" else 1
+    div = 10 if ctx.tier == "quick" else 1
     nsweep = len(CONFIGS) * per_cfg // div
     if n < nsweep:
         ci, k = divmod(n, per_cfg // div)
@@ -134,7 +135,7 @@ def run_case(ctx, n):
     w = [3, 2, 4, 4, 1, 2, 1, 2, 1, 2, 2]
     seq = rng.choices(RAND_ALPHA, weights=w, k=L)
     real = (n % 10 == 0) and cfg[4] == "AND"
-    if n % (400 if ctx.tier == "quick" else 2500) == 3:
+    if n % (250 if ctx.tier == "quick" else 2500) == 3:
         return thread_case(ctx, n, rng)
     drive(ctx, n, cfg, seq, real=real)
 
@@ -397,7 +398,7 @@ def thread_case(ctx, n, rng):
         loop = Loop(ATP_Store(10 ** 6, silent=True), failure_threshold=threshold, recovery_timeout_seconds=10 ** 6,
                     enable_cache=False, silent=True)
         loop.executor, loop.assessor = PStub("Gene_Z (Exec)", "E"), PStub("Gene_Y (Risk)", "A")
-        loop._lock = sched.SchedLock(loop._lock, "loop._lock")
+        wrap_all_locks(loop, sched.SchedLock, "loop")
         sc = sched.Scheduler(policy, watchdog_s=30.0)
         sc.run([(lambda ps=ps: [loop.run(p) for p in ps]) for ps in reqs])
         ctx.count("thread_schedules")
